@@ -199,10 +199,10 @@ type (
 
 // Block is a statement list followed by an optional result.
 type Block struct {
-	Stmts []Stmt
-	Ret   Term // nil when the block yields no value
+	Stmts  []Stmt
+	Ret    Term // nil when the block yields no value
 	HasRet bool // an explicit return statement ends the block (Ret may still be nil: bare return)
-	Node  ast.Node
+	Node   ast.Node
 }
 
 type Stmt interface{ Pos() token.Pos }
@@ -248,13 +248,13 @@ type (
 	// Loop is a for / range statement; Body is lowered, header kept as syntax.
 	Loop struct {
 		node
-		Stmt ast.Stmt
+		Stmt     ast.Stmt
 		Key, Val *types.Var // range variables
-		Over Term           // range operand
-		Init Stmt
-		Cond Term
-		Post Stmt
-		Body *Block
+		Over     Term       // range operand
+		Init     Stmt
+		Cond     Term
+		Post     Stmt
+		Body     *Block
 	}
 	// OpaqueStmt is any other statement.
 	OpaqueStmt struct {
